@@ -43,6 +43,8 @@ type Prim interface {
 	Clear(c, t string) *Resp
 	Put(c, t string, item Item, w WriteArgs) *Resp
 	Get(c, t string, key Item) *Resp
+	// GetProj issues GetItem with a ProjectionExpression naming the given top-level attributes.
+	GetProj(c, t string, key Item, proj []string) *Resp
 	Update(c, t string, key Item, upd string, w WriteArgs) *Resp
 	Delete(c, t string, key Item, w WriteArgs) *Resp
 	Read(c string, q *ReadArgs) *Resp
